@@ -18,6 +18,36 @@ func init() {
 const qh = "(*internal/api.QueryHandler)."
 
 func runC14(c *Ctx) {
+	c.Rule("C14.TWOFORMS", "FLOW: in ValidateSQLRequest the I/O-function deny-list and the string-literal-in-table-position test are each applied (also) to text that comes from MaskStringLiterals in that function — whose quote pairing is DuckDB's — and not only to ioDenylistNormalise's output, which deletes double quotes before pairing single ones and is thrown off by a legal identifier such as \"a'b\"")
+	if fn := c.MustFunc("C14.TWOFORMS", "internal/api.ValidateSQLRequest"); fn != nil {
+		fromMask := func(v ssa.Value) bool {
+			return derivesWide(v, isResultOf("internal/sql.MaskStringLiterals"), 30)
+		}
+		deny, pos := false, false
+		nDeny, nPos := 0, 0
+		for _, call := range callsIn(fn, false) {
+			nm := callName(call)
+			if strings.HasPrefix(nm, "(*regexp.Regexp).") {
+				if ld, ok := call.Common().Args[0].(*ssa.UnOp); ok {
+					if g, ok := ld.X.(*ssa.Global); ok && g.Name() == "ioTableFunctionPattern" {
+						nDeny++
+						if fromMask(call.Common().Args[1]) {
+							deny = true
+						}
+					}
+				}
+			}
+			if nm == "internal/api.stringLiteralInTablePosition" {
+				nPos++
+				if fromMask(call.Common().Args[0]) {
+					pos = true
+				}
+			}
+		}
+		c.Check(deny && nDeny >= 1, "C14.TWOFORMS", "ValidateSQLRequest|denylist-on-correct-mask", fn.Pos(), fmt.Sprintf("%d deny-list match(es), at least one on MaskStringLiterals-derived text", nDeny), "the I/O deny-list is matched only against ioDenylistNormalise's text: `SELECT s.host AS \"a'b\" FROM tenant.cpu, read_parquet('<other db>') s` hides the call inside a mis-paired literal and a tenant-only caller reads another database's files")
+		c.Check(pos && nPos >= 1, "C14.TWOFORMS", "ValidateSQLRequest|replacement-scan-on-correct-mask", fn.Pos(), fmt.Sprintf("%d table-position test(s), at least one on MaskStringLiterals-derived text", nPos), "the replacement-scan test runs only on ioDenylistNormalise's text: after `AS \"a'b\"` a '…' path in table position stands outside any placeholder and is executed by DuckDB as a file read")
+	}
+	transformCacheKeyAll(c, "C14.CACHEKEY")
 	c.Rule("C14.GATE", "DOM: in every request handler, each call of getTransformedSQL/getTransformedSQLForParallel is dominated by ValidateSQLRequest(sql)==nil and by checkQueryPermissions(that same sql value, read)==nil; a non-constant header database was validated, and on every path either the header is empty or hasCrossDatabaseSyntax(sql) was false")
 	c.Rule("C14.SHOW", "DOM: the transform is reached only where the SHOW patterns did not match the comment-stripped form of that same sql (SHOW statements are answered by the RBAC-gated listing handlers)")
 	c.Rule("C14.EXEC", "FLOW: every SQL string handed to the DuckDB query API by the query handlers derives from a transform result (directly, or through a parameter whose every caller passes one)")
@@ -198,13 +228,47 @@ func c14Gate(c *Ctx) {
 				miss = append(miss, "ValidateSQLRequest(<this sql>) == nil")
 			}
 			// permission
+			isHeaderGet := func(v ssa.Value) bool {
+				return derives(v, func(x ssa.Value) bool {
+					cl, ok := x.(*ssa.Call)
+					if !ok || !strings.HasSuffix(callName(cl), "fiber/v2.Ctx).Get") {
+						return false
+					}
+					k, ok := constString(cl.Call.Args[1])
+					return ok && strings.EqualFold(k, "x-arc-database")
+				}, true, 6)
+			}
+			hdrMismatch := ""
 			permOK := len(nilCallFacts(at, func(cl *ssa.Call) bool {
-				if callName(cl) != qh+"checkQueryPermissions" {
-					return false
+				switch callName(cl) {
+				case qh + "checkQueryPermissions":
+					perm, _ := constString(cl.Call.Args[3])
+					if !(sameSQL(cl.Call.Args[2], S) && perm == "read") {
+						return false
+					}
+					// this form resolves unqualified names in the request's x-arc-database header: the transform must get that header too
+					if !isHeaderGet(H) {
+						hdrMismatch = "the permission check resolves unqualified names in the x-arc-database header's database, but the transform is called with another header value"
+					}
+					return true
+				case qh + "checkQueryPermissionsFor":
+					perm, _ := constString(cl.Call.Args[3])
+					if !(sameSQL(cl.Call.Args[2], S) && perm == "read") {
+						return false
+					}
+					ch := cl.Call.Args[4]
+					s1, c1 := constString(ch)
+					s2, c2 := constString(H)
+					if !(ch == H || (c1 && c2 && s1 == s2)) {
+						hdrMismatch = "the header database given to the permission check is not the one given to the transform"
+					}
+					return true
 				}
-				perm, _ := constString(cl.Call.Args[3])
-				return sameSQL(cl.Call.Args[2], S) && perm == "read"
+				return false
 			})) > 0
+			if permOK && hdrMismatch != "" {
+				miss = append(miss, "agreement on the header database ("+hdrMismatch+": unqualified table names are checked in one database and read from another)")
+			}
 			if !permOK {
 				miss = append(miss, "checkQueryPermissions(<this sql>, \"read\") == nil (every table the statement reads must be permission-checked; a check on path parameters does not cover subqueries in caller-supplied fragments)")
 			}
@@ -688,7 +752,7 @@ var c14Normalisers = []string{
 
 func c14Pipe(c *Ctx) {
 	// permission side
-	cp := c.MustFunc("C14.PIPE", qh+"checkQueryPermissions")
+	cp := c.MustFunc("C14.PIPE", qh+"checkQueryPermissionsFor")
 	if cp == nil {
 		return
 	}
@@ -795,7 +859,11 @@ func c14Pipe(c *Ctx) {
 			continue
 		}
 		if sn, f, _, ok := fieldOf(st.Addr); ok && sn == "TableReference" && f == "Database" {
+			// the header reaches the check as its headerDB parameter; the implicit form passes c.Get("x-arc-database")
 			fromHeader := derives(st.Val, func(x ssa.Value) bool {
+				if prm, ok := resolveParam(x).(*ssa.Parameter); ok && prm.Name() == "headerDB" {
+					return true
+				}
 				cl, ok := x.(*ssa.Call)
 				if !ok || callName(cl) != "(*github.com/gofiber/fiber/v2.Ctx).Get" {
 					return false
@@ -815,6 +883,20 @@ func c14Pipe(c *Ctx) {
 				hdr = true
 			}
 		}
+	}
+	if impl := c.P.Func(qh + "checkQueryPermissions"); impl != nil {
+		deleg := false
+		for _, call := range findCalls(impl, false, qh+"checkQueryPermissionsFor") {
+			a := call.Common().Args
+			if len(a) == 5 {
+				if cl, ok := a[4].(*ssa.Call); ok && strings.HasSuffix(callName(cl), "fiber/v2.Ctx).Get") {
+					if k, ok := constString(cl.Call.Args[1]); ok && strings.EqualFold(k, "x-arc-database") {
+						deleg = true
+					}
+				}
+			}
+		}
+		c.Check(deleg, "C14.HEADER", "checkQueryPermissions|delegates-with-request-header", impl.Pos(), "the implicit form passes the request's x-arc-database header", "checkQueryPermissions does not hand the request's x-arc-database header to checkQueryPermissionsFor")
 	}
 	c.Check(hdr, "C14.HEADER", "checkQueryPermissions|default-becomes-header", cp.Pos(), "references to the default database are checked under the header database", "the permission check does not substitute the x-arc-database header for the default database although the rewriter resolves unqualified tables under the header: a caller allowed to read default.<m> reads <header>.<m>")
 	if wh := c.MustFunc("C14.HEADER", qh+"convertSQLToStoragePathsWithHeaderDB"); wh != nil {
